@@ -190,7 +190,15 @@ def check(ctx):
     ex_, _g = _e1.get()
     for b in ("_build_declarations", "_build_function_definition", "_build_parameter_declaration", "_fix_decl_name_type", "_type_modify_decl", "_add_declaration_specifier"):
         ok = b not in ex_.token_effect
-        ctx.oblige("R-C04.3", f"{b} consumes no token", ok)
+        if not ok and b in px.methods("CParser"):
+            # a builder that parses part of the construct itself is fine as long as it parses FIRST and registers AFTERWARDS: what matters is that the
+            # body of a function is complete (its closing brace consumed, its scope popped) before the function's own name is registered
+            bf = px.method("CParser", b)
+            prod_calls = [c for c in ast.walk(bf) if isinstance(c, ast.Call) and isinstance(c.func, ast.Attribute) and (c.func.attr in ex_.productions or c.func.attr in ("_expect", "_accept", "_advance"))]
+            reg_calls = [c for c in ast.walk(bf) if isinstance(c, ast.Call) and isinstance(c.func, ast.Attribute) and c.func.attr in ("_build_declarations", "_add_identifier", "_add_typedef_name")]
+            in_loop = any(isinstance(x, (ast.For, ast.While)) and any(c in list(ast.walk(x)) for c in prod_calls) for x in ast.walk(bf))
+            ok = bool(prod_calls) and bool(reg_calls) and not in_loop and max((c.lineno, c.col_offset) for c in prod_calls) < min((c.lineno, c.col_offset) for c in reg_calls)
+        ctx.oblige("R-C04.3", f"{b} consumes no token after it has registered a name", ok)
         if not ok:
             ctx.violation("R-C04.3", f"builder-consumes:{b}", f"{b} (which registers the declared names) now consumes tokens itself: what it parses is parsed in a different order relative to the registration - e.g. a function body parsed inside "
                           "_build_function_definition sees the function's own name registered in the body scope", file=px.rel, function=f"CParser.{b}")
